@@ -129,6 +129,7 @@ GNext == /\ nops < MaxOps
 GSpec == GInit /\ [][GNext]_<<vars, h, walk, rnd>>
 
 (* Print complete behaviours only. *)
-Cfg  == [page |-> Page, header |-> Header, namemeta |-> NameMeta, indexend |-> IndexEnd, buckets |-> BucketOf]
+Cfg  == [page |-> Page, header |-> Header, namemeta |-> NameMeta, indexend |-> IndexEnd, buckets |-> BucketOf,
+         long |-> [n \in Names |-> n \in LongNames]]
 Emit == (Len(h) = MaxOps) => PrintT(<<"REPLAY", ToJson([c |-> Cfg, steps |-> h])>>)
 =============================================================================
